@@ -187,6 +187,8 @@ func cmdGen(args []string) {
 		genRun(r, out, *n)
 	case "memio":
 		genMemio(r, out, *n)
+	case "block":
+		genBlock(r, out, *n, *per)
 	default:
 		fmt.Fprintln(os.Stderr, "unknown gen kind", kind)
 		os.Exit(2)
@@ -328,6 +330,84 @@ func genRun(r *rng, out *bufio.Writer, n int) {
 			}
 			v.BP = strings.Join(l, ",")
 		}
+		fmt.Fprintln(out, v.String())
+	}
+}
+
+// genBlock: repeating and single block instructions run to completion; -per = number of full-length (BC=0 / 65535) runs
+func genBlock(r *rng, out *bufio.Writer, n int, full int) {
+	ops := []uint8{0xb0, 0xb8, 0xb1, 0xb9, 0xb2, 0xba, 0xb3, 0xbb, 0xa0, 0xa8, 0xa1, 0xa9, 0xa2, 0xaa, 0xa3, 0xab}
+	for i := 0; i < n; i++ {
+		op := ops[i%len(ops)]
+		if i >= 2*len(ops) {
+			op = ops[r.n(8)]
+		}
+		v := r.randomState(fmt.Sprintf("blk-%02x-%d", op, i))
+		v.Intr = nil
+		v.HasIO = !r.chance(5)
+		pc := v.W[12]
+		// counts
+		cnt := []uint16{1, 2, 3, 4, 255, 256, 257, 0x0100, 0x0201, 0x0200, 16, 64}[r.n(12)]
+		if r.chance(30) {
+			cnt = uint16(1 + r.n(600))
+		}
+		if i < full {
+			cnt = []uint16{0, 0xffff, 0x0100, 0x8000}[i%4]
+			op = []uint8{0xb0, 0xb1, 0xb8, 0xb9, 0xb3, 0xb2}[i%6]
+		}
+		v.ID = fmt.Sprintf("blk-%02x-%d", op, i)
+		v.W[1] = cnt
+		if op&0x02 != 0 { // I/O forms count in B
+			v.W[1] = uint16(cnt)<<8 | uint16(r.u8())
+			if cnt > 255 {
+				v.W[1] = uint16(r.u8()) // B = 0: 256 elements
+			}
+		}
+		// pointers: overlap distances -3..+3, covering the instruction, wrap at 0xFFFF
+		hl := r.w16()
+		switch r.n(6) {
+		case 0:
+			hl = pc - uint16(r.n(8)) + 2
+		case 1:
+			hl = 0xffff - uint16(r.n(4))
+		case 2:
+			hl = uint16(r.n(4))
+		}
+		de := r.w16()
+		switch r.n(6) {
+		case 0, 1:
+			de = hl + uint16(r.n(7)) - 3
+		case 2:
+			de = pc - uint16(r.n(8)) + 3
+		case 3:
+			de = 0xffff - uint16(r.n(4))
+		}
+		v.W[3], v.W[2] = hl, de
+		// make CPIR find something sometimes: A = a byte the search will meet is left to chance; plant one
+		over := []Override{{pc, []uint8{0xed, op}}}
+		if op&0x03 == 0x01 && r.chance(60) {
+			k := uint16(r.n(int(uint32(cnt-1)%300) + 1))
+			a := hl + k
+			if op&0x08 != 0 {
+				a = hl - k
+			}
+			over = append(over, Override{a, []uint8{uint8(v.W[0] >> 8)}})
+		}
+		v.Over = over
+		steps := int(cnt)
+		if cnt == 0 {
+			steps = 65536
+		}
+		if op&0x02 != 0 {
+			steps = int(v.W[1] >> 8)
+			if steps == 0 {
+				steps = 256
+			}
+		}
+		if op&0x10 == 0 {
+			steps = 1
+		}
+		v.N = steps + r.n(2)
 		fmt.Fprintln(out, v.String())
 	}
 }
